@@ -89,7 +89,15 @@ def run (s : Sexp) : String :=
     -- alternatively mapped DAO is in progress are fixed again once the final object exists), F-C04-2
     -- (453154d: FromDAOState keeps the converted DAOs alive, no id() is reused), F-C04-3 (76e196d).
     -- The code is the copy that never memoises the intermediate (`quirk := false`): `C04_roundtrip` is the theorem.
-    let m := showRun (roundTrip false unmap c.heap roots)
+    -- `model=` is `verdictText`: it equals `spec=` exactly when the DECIDED isomorphism test `canonEq` accepts the
+    -- model's result against the input (`C04_verdict`: ⇔ `Iso`, the property's relation; `C04_canonEq_roundtrip`)
+    let m := match roundTrip false unmap c.heap roots with
+      | some (rs, st) => verdictText c.heap roots st.out rs
+      | none => "error:model"
+    -- the scalars of every object through the conversion table of today's in-memory copy (`tableMem`; always kept:
+    -- `scalarsKept_mem`, an instance of `C04_scalars_preserved`)
+    let m := if c.heap.all (fun n => scalarsKept tableMem driverEnums n.lab.scal) then m
+             else "error:scalars-changed-by-table " ++ m
     let spec := canon c.heap roots
     s!"model={m}\tspec={spec}\ttrig="
 end KrroodVerif.Drive.C04
